@@ -7,7 +7,7 @@ Definition ntype_label (k : nkind) : bytes :=
   match k with
   | KRoot _ _ => lit "Root" | KCode _ => lit "GoCode" | KGoht _ => lit "Goht" | KDoctype _ => lit "Doctype"
   | KElement _ _ _ => lit "Element" | KNewLine _ => lit "NewLine" | KComment _ _ => lit "Comment"
-  | KText _ => lit "Text" | KUnescape _ _ => lit "Unescape" | KSilent _ _ => lit "SilentScript"
+  | KText _ => lit "Text" | KUnescape _ _ => lit "Unescape" | KSilent _ _ _ => lit "SilentScript"
   | KScript _ => lit "Script" | KRender _ _ => lit "RenderCommand" | KChildren _ => lit "ChildrenCommand"
   | KFilter _ _ _ => lit "Filter"
   end.
